@@ -802,6 +802,11 @@ def _c18_case(col, rng, cidx, tmpdir, jobref=None):
     dflt18 = rng.random() < 0.3
     if dflt18:
         sp["defaults"] = {"x": "default-of-x"}  # the DAG input has a default: a restart may be called without it
+    if rng.random() < 0.3 and sp["ret"][0] in ("tuple", "list"):
+        # the DAG also returns constants and / or its own argument: results of their own in the file (under ids of their own)
+        for extra in rng.sample([["c", 5], ["c", "k"], ["p", "x"], ["c", None]], rng.randint(1, 2)):
+            sp["ret"][1].insert(rng.randint(0, len(sp["ret"][1])), extra)
+        col.counters["c18_cases_returning_constants_or_arguments"] += 1
     g = S.site_graph(sp)
     # some setup nodes (ancestor closed, no DAG argument): their results are part of the cache file too
     setup18 = set()
@@ -828,6 +833,36 @@ def _c18_case(col, rng, cidx, tmpdir, jobref=None):
     plain = {name: probes.mkprobe(name, shape=tuple(fs["shape"]) if fs.get("shape") else None) for name, fs in sp["fns"].items()}
     ids = S.node_ids(sp)
     n = len(ids)
+    if rng.random() < 0.35:
+        # tags: shared between functions, or spelled exactly like the id of a node of ANOTHER function (a tag wins: that string
+        # denotes the tagged nodes).  The selections below are then spelled with tags, ids and node references
+        for fn in sorted(sp["fns"]):
+            if rng.random() < 0.5:
+                foreign = [x for q, x in enumerate(ids) if sp["nodes"][q]["fn"] != fn]
+                sp["fns"][fn]["tag"] = rng.choice(["T", "m_1"] + ([rng.choice(foreign)] * 3 if foreign else []))
+        col.counters["c18_cases_with_tags"] += 1
+    tg18 = tags_by_site(sp)
+
+    def plan18(sites, allow_tags):
+        """How a selection is spelled: [(kind, what)], and the call sites it denotes."""
+        out, den = [], set()
+        for i in sites:
+            if allow_tags and i in tg18 and rng.random() < 0.4:
+                out.append(("tag", tg18[i]))
+                den |= {q for q, t in tg18.items() if t == tg18[i]}
+            elif ids[i] in tg18.values() or rng.random() < 0.25:
+                out.append(("node", i))  # (an id that is also somebody's tag can only be named by reference)
+                den.add(i)
+                if ids[i] in tg18.values():
+                    col.counters["c18_selections_naming_by_reference_a_node_whose_id_is_also_a_tag"] += 1
+            else:
+                out.append(("id", i))
+                den.add(i)
+        return out, sorted(den)
+
+    def spell18(dag_obj, plan):
+        return [w if k == "tag" else (ids[w] if k == "id" else dag_obj.get_node_by_id(ids[w])) for k, w in plan]
+
     d, _e, _p = S.build_tawazi(sp, plain=plain)
     path = os.path.join(tmpdir, "c%d.pkl" % cidx)
     inst_setup = {}  # id(DAG instance) -> {setup site: value computed on that instance} (setup results survive on the instance)
@@ -866,13 +901,15 @@ def _c18_case(col, rng, cidx, tmpdir, jobref=None):
     kw1 = {"cache_in": path}
     if mode == "targets":
         ts = rng.sample(range(n), rng.randint(1, min(3, n)))
-        kw1["target_nodes"] = [ids[i] for i in ts]
+        plan1, ts = plan18(ts, True)
+        kw1["target_nodes"] = spell18(d, plan1)
         sel1 = S.closure(sp, None, None, ts)
     elif mode == "cache_deps_of":
         nn = rng.sample(range(n), rng.randint(1, min(3, n)))
         # none of them may be an ancestor of another one (its result would have to be both cached and not cached)
         nn = [i for i in nn if not any(i in nx.ancestors(g, q) for q in nn if q != i)]
-        kw1["cache_deps_of"] = [ids[i] for i in nn]
+        plan1, _den = plan18(nn, False)
+        kw1["cache_deps_of"] = spell18(d, plan1)
         sel1 = S.closure(sp, None, None, nn)
     else:
         sel1 = set(range(n))
@@ -926,20 +963,21 @@ def _c18_case(col, rng, cidx, tmpdir, jobref=None):
     # restart
     rmode = "cache_deps_of" if mode == "cache_deps_of" else rng.choice(["whole", "same", "targets"])
     kw2 = {"from_cache": path}
+    d2, _e, _p = S.build_tawazi(sp, plain=plain)  # "a later execution of the same DAG": a fresh process would rebuild it
+    dd = d2 if rng.random() < 0.5 else d
     if rmode == "cache_deps_of":
-        kw2["cache_deps_of"] = kw1["cache_deps_of"]
+        kw2["cache_deps_of"] = spell18(dd, plan1)
         sel2 = sel1
     elif rmode == "same" and mode == "targets":
-        kw2["target_nodes"] = kw1["target_nodes"]
+        kw2["target_nodes"] = spell18(dd, plan1)
         sel2 = sel1
     elif rmode == "targets":
         ts = rng.sample(range(n), rng.randint(1, min(3, n)))
-        kw2["target_nodes"] = [ids[i] for i in ts]
+        plan2, ts = plan18(ts, True)
+        kw2["target_nodes"] = spell18(dd, plan2)
         sel2 = S.closure(sp, None, None, ts)
     else:
         sel2 = set(range(n))
-    d2, _e, _p = S.build_tawazi(sp, plain=plain)  # "a later execution of the same DAG": a fresh process would rebuild it
-    dd = d2 if rng.random() < 0.5 else d
     recache = None
     if rng.random() < 0.25:
         # from_cache and cache_in together: the restart re-writes a cache file, from which a second restart must work too
